@@ -115,6 +115,7 @@ class Variants:
             "vr_sock_int": not probes.get("sock_bool", True),
             "vr_positional_none": bool(probes.get("positional_empty_string", False)),
             "vr_bundle20_recheck": not probes.get("bundle20_member_21_sco", True),
+            "vr_md20_default_ms": bool(probes.get("md20_default_ms", False)),
         }
 
     def coq_variant(self):
